@@ -4,3 +4,4 @@ import SmVerif.Model.DriverOwn
 import SmVerif.Model.DriverNg
 import SmVerif.Model.DriverLca
 import SmVerif.Model.DriverCmp
+import SmVerif.Model.DriverStore
